@@ -1,6 +1,7 @@
 """C01 — the query API reports exactly the content of every added lexicon."""
 from __future__ import annotations
 import ast
+import re
 from ..src import norm, walk_no_nested, AnalysisError
 from ..rowshape import insert_bindings, rows_of
 from ..descr import Describer
@@ -232,10 +233,19 @@ def row_guards(d, b):
         anchor = getattr(b.row.elts[0], '_parent', node) or node
     for test, pol in _dominating_facts(anchor, b.func.node):
         c = d._cond(test, test, 0, b.row)
-        out.append(c if pol else f'not ({c})')
+        c = c if pol else f'not ({c})'
+        while c.startswith('not (not (') and c.endswith('))'):
+            c = c[len('not (not ('):-2]
+        out.append(c)
     its = []
     for tgt, it in b.row.gens:
-        its.append('over ' + d.describe(it, it, 1, b.row))
+        o = 'over ' + d.describe(it, it, 1, b.row)
+        # iterables that say nothing about the document (batches of a local list, the table/statement pairs of a helper loop)
+        # are implementation detail
+        if not re.search(r'[A-Z][a-z]+[A-Za-z|]*\.|param:|each\(|expr:', o):
+            continue
+        if o not in its:
+            its.append(o)
     return tuple(sorted(set(out))) + tuple(its)
 
 
@@ -760,5 +770,5 @@ RULES = [
     ('C01-R6', r6_defaults, 4),
     ('C01-R7', r7_readers, 40),
     ('C01-R8', r8_converters, 8),
-    ('C01-R9', r9_no_shared_records, 3),
+    ('C01-R9', r9_no_shared_records, 2),
 ]
